@@ -3,6 +3,7 @@ package http
 
 import (
 	"context"
+	"errors"
 
 	gometrics "github.com/rcrowley/go-metrics"
 	"mosn.io/api"
@@ -59,6 +60,9 @@ func (h *zzHost) AddressString() string          { return "1.1.1.1:1" }
 func (h *zzHost) ClusterInfo() types.ClusterInfo { return h.info }
 func (h *zzHost) HostStats() *types.HostStats    { return h.hs }
 func (h *zzHost) TLSHashValue() *types.HashValue { return nil }
+func (h *zzHost) CreateConnection(ctx context.Context) types.CreateConnectionData {
+	return types.CreateConnectionData{Host: h}
+}
 
 type zzStream struct {
 	str.BaseStream
@@ -83,7 +87,40 @@ type zzClient struct {
 	ac      *activeClient
 	closed  bool
 	streams []*zzStream
+	// dial: 0 the connection is established, 1 refused (ConnectFailed), 2 timed out (ConnectTimeout)
+	dial      int
+	connected bool
+	listeners []api.ConnectionEventListener
 }
+
+func (c *zzClient) AddConnectionEventListener(l api.ConnectionEventListener) {
+	c.listeners = append(c.listeners, l)
+	if ac, ok := l.(*activeClient); ok {
+		c.ac = ac
+	}
+}
+func (c *zzClient) SetStreamConnectionEventListener(types.StreamConnectionEventListener) {}
+func (c *zzClient) SetConnectionCollector(read, write gometrics.Counter)                 {}
+
+// Connect behaves as network.clientConnection.Connect: the outcome is raised
+// synchronously as a connection event to every listener, then returned.
+func (c *zzClient) Connect() error {
+	ev, err := api.Connected, error(nil)
+	switch c.dial {
+	case 1:
+		ev, err = api.ConnectFailed, zzErrDial
+	case 2:
+		ev, err = api.ConnectTimeout, zzErrDial
+	default:
+		c.connected = true
+	}
+	for _, l := range c.listeners {
+		l.OnEvent(ev)
+	}
+	return err
+}
+
+var zzErrDial = errors.New("dial failed")
 
 func (c *zzClient) ConnID() uint64 { return c.id }
 func (c *zzClient) NewStream(ctx context.Context, r types.StreamReceiveListener) types.StreamSender {
@@ -94,6 +131,9 @@ func (c *zzClient) NewStream(ctx context.Context, r types.StreamReceiveListener)
 func (c *zzClient) Close() {
 	if !c.closed {
 		c.closed = true
+		if !c.connected {
+			return // network.connection.Close: no raw connection, no close event
+		}
 		c.ac.OnEvent(api.LocalClose)
 	}
 }
@@ -110,18 +150,24 @@ type zzWorld struct {
 	host    *zzHost
 	clients []*zzClient
 	leased  []*zzStream // live streams, in creation order
+	nextDial int
 }
 
-// zzDial models a completed dial exactly as newActiveClient accounts for it.
-func (w *zzWorld) zzDial() *activeClient {
-	c := &zzClient{id: uint64(len(w.clients) + 1)}
-	ac := &activeClient{pool: w.pool, client: c}
-	c.ac = ac
+// zzNewClient is what the pool's createStreamClient is replaced by: a stream
+// client over a connection whose dial succeeds, is refused or times out.
+func (w *zzWorld) zzNewClient(dial int) *zzClient {
+	c := &zzClient{id: uint64(len(w.clients) + 1), dial: dial}
+	if dial != 0 {
+		c.closed = true // never established: not counted as an open connection
+	}
 	w.clients = append(w.clients, c)
-	w.host.hs.UpstreamConnectionTotal.Inc(1)
-	w.host.hs.UpstreamConnectionActive.Inc(1)
-	w.info.st.UpstreamConnectionTotal.Inc(1)
-	w.info.st.UpstreamConnectionActive.Inc(1)
+	return c
+}
+
+// zzDial: an established connection, created through the real newActiveClient.
+func (w *zzWorld) zzDial() *activeClient {
+	w.nextDial = 0
+	ac, _ := newActiveClient(context.Background(), w.pool)
 	return ac
 }
 
@@ -169,19 +215,32 @@ func (w *zzWorld) zzCheck(maxReq uint64) {
 // idle connections: exclusive leases, no leaked or doubly listed connection,
 // counters equal to the truth, a locally reset connection is closed.
 func VerifC09_HTTPPool() {
+	zzHTTPPool(verif.Param("steps", 3, 4))
+	verif.Cover("done")
+}
+
+// VerifC10_HTTPPoolSlots: the same exploration, shorter sequences, counted for
+// C10: the connection slots (totalClientCount against max_connections), the
+// requests resource and the active gauges return to the truth after every
+// operation, in particular after a dial that is refused or times out.
+func VerifC10_HTTPPoolSlots() {
+	zzHTTPPool(verif.Param("slot_steps", 2, 3))
+	verif.Cover("done")
+}
+
+func zzHTTPPool(steps int) {
 	maxConn := uint32(verif.Choose("max_connections", 3))
 	maxReq := uint32(verif.Choose("max_requests", 3))
 	info := &zzInfo{rm: cluster.NewResourceManager(v2.CircuitBreakers{Thresholds: []v2.Thresholds{{MaxConnections: maxConn, MaxRequests: maxReq}}}), st: zzClusterStats()}
 	host := &zzHost{info: info, hs: zzHostStats()}
 	pool := NewConnPool(context.Background(), host).(*connPool)
 	w := &zzWorld{pool: pool, info: info, host: host}
-	// the dial inside NewStream is replaced by the model of a completed dial
-	// (natively a dial needs a real connection: sequences with a dial are engine-only)
-	verif.Replace("mosn.io/mosn/pkg/stream/http.newActiveClient", func(ctx context.Context, p *connPool) (*activeClient, types.PoolFailureReason) {
-		if verif.Choose("dial_fails", 2) == 1 {
-			return nil, types.ConnectionFailure
-		}
-		return w.zzDial(), ""
+	// the environment boundary is the stream client over the network connection: the
+	// real newActiveClient runs, its codec client is a scripted one whose Connect
+	// succeeds, is refused or times out (natively a dial needs a real peer: sequences
+	// with a dial are engine-only)
+	verif.Replace("(*mosn.io/mosn/pkg/stream/http.connPool).createStreamClient", func(p *connPool, ctx context.Context, d types.CreateConnectionData) str.Client {
+		return w.zzNewClient(w.nextDial)
 	})
 	idle0 := verif.Choose("initial_idle", 3)
 	if maxConn > 0 && idle0 > int(maxConn) {
@@ -192,7 +251,6 @@ func VerifC09_HTTPPool() {
 		pool.totalClientCount++
 	}
 	w.zzCheck(uint64(maxReq))
-	steps := verif.Param("steps", 3, 4)
 	for i := 0; i < steps; i++ {
 		switch verif.Choose("op", 5) {
 		case 0: // a new request
@@ -200,6 +258,7 @@ func VerifC09_HTTPPool() {
 				verif.EngineOnly("NewStream would dial: a real connection natively, a modelled dial under the engine")
 			}
 			idleBefore := len(pool.availableClients)
+			w.nextDial = verif.Choose("dial_outcome", 3)
 			ctx := variable.NewVariableContext(context.Background())
 			_, sender, reason := pool.NewStream(ctx, nil)
 			if sender != nil {
